@@ -2112,6 +2112,11 @@ pub fn try_parse<I>(pattern: I, flags: api::Flags) -> Result<ir::Regex, Error>
 where
     I: Iterator<Item = u32> + Clone,
 {
+    // The v flag (UnicodeSets mode) is a superset of the u flag: it implies Unicode mode.
+    let mut flags = flags;
+    if flags.unicode_sets {
+        flags.unicode = true;
+    }
     let mut p = Parser {
         input: pattern.peekable(),
         flags,
